@@ -141,6 +141,7 @@ def _sim_summary(res):
         "raw_writes": res["raw_writes"],
         "n_opened": len(res["opened"]),
         "listed": res["listed"],
+        "lines_hit": res.get("lines_hit", []),
     }
 
 
@@ -227,7 +228,7 @@ def evaluate_session(ctx, splan, want_events=False):
     rec = {"run": splan.get("run"), "kind": "session", "violations": [], "inconclusive": None, "steps": [], "trace_hashes": [], "harness_error": None}
     for k, (inv, (res, data)) in enumerate(zip(invs, outs)):
         rec["trace_hashes"].append(res["trace_hash"])
-        frec, fres, fdata = evaluate_twin(ctx, inv, build=False)
+        frec, fres, fdata = evaluate_twin(ctx, dict(inv, faults=[]), build=False)
         rec["trace_hashes"].append(fres["trace_hash"])
         step = {"k": k, "status": res["status"], "fresh_status": fres["status"], "out_len": res["out_len"], "fresh_out_len": fres["out_len"], "overlay_files": res.get("overlay_files"), "probes": res["probes"], "steps": res["steps"]}
         if want_events:
@@ -238,6 +239,11 @@ def evaluate_session(ctx, splan, want_events=False):
             step["outcome"] = "fresh run fails too"
             continue
         d = {"invocation": k, "of": len(invs), "status": res["status"], "exc": res["exc"], "tb_tail": res["tb_tail"], "overlay_files": res.get("overlay_files"), "selection": inv["selection"]}
+        if inv.get("faults") and not res["hang"] and res["status"] != 0 and delivered_unhandled(res, inv["env"].get("stdout_mode", "block")):
+            # this invocation was crashed on purpose; what matters is what the *next* ones make
+            # of whatever it left behind
+            step["outcome"] = "crashed as planned (status %s)" % res["status"]
+            continue
         if res["hang"] or res["status"] != 0:
             d["what"] = "hang" if res["hang"] else "non-zero status"
             rec["violations"].append({"class": "HISTORY_DEPENDENT", "sig": "HISTORY_DEPENDENT|%s|%s" % (d["what"], res["exc"]), "detail": d})
